@@ -4,6 +4,9 @@ ENGINES = [
     {"name": "evloop", "path": "engine/evloop.py", "serves_properties": [],
      "kind_free_text": "controlled event loop for the real Scheduler (interposed executor + events_queue) with stateless "
      "deviation-bounded / full-tree exploration of completion interleavings"},
+    {"name": "crash", "path": "engine/crash.py", "serves_properties": [],
+     "kind_free_text": "enumeration of every commit point (process death) and every statement (one transient OperationalError) of a "
+     "workload on a real SQLite file, followed by consistency queries and recovery runs"},
     {"name": "progs", "path": "engine/progs.py", "serves_properties": [],
      "kind_free_text": "exhaustive generator of typed workflow-program ASTs up to a size bound, builder into real redun expressions, "
      "and a reference interpreter returning the set of admissible outcomes"},
@@ -72,6 +75,24 @@ CHECKS += [
      "promise-returning, re-entrantly settling and re-registering callbacks, Promise.all, wait_promises) are replayed on the real Promise "
      "and on a reference model; callback log and all promise states are compared after every operation.",
      "note": "The reference model (synchronous delivery, per-promise FIFO) is the trusted base; values are compared by repr."},
+]
+
+_CRASH_NOTE = ("Trusted base: SQLite transaction atomicity (torn pages out of scope); a crash is a BaseException raised in the engine's commit "
+               "hook after which the session is discarded and the file reopened; faults are sqlite3.OperationalError raised from do_execute; "
+               "default completion schedule.")
+CHECKS += [
+    {"id": "C22", "engine": "crash", "level": "fault_enumeration",
+     "technique": "exhaustive crash-point and single/double transient-fault enumeration on the real SQLite backend",
+     "text": "For 3 (quick) / 5 (thorough) workloads: crash before every commit point and one OperationalError at every statement "
+     "(thorough: every pair p,p+1 and p,p+2); after each, referential-consistency queries, recovery runs of the same and of every "
+     "single-task-edited program compared with an empty backend, and completeness of every record that is present.",
+     "note": _CRASH_NOTE},
+    {"id": "C03", "engine": "crash", "level": "fault_enumeration",
+     "technique": "exhaustive crash-point / transient-fault enumeration plus record transfer, each followed by every single-task edit and a shallow run",
+     "text": "A check_valid=shallow workflow is first executed cleanly, crashed before every commit, hit by a fault at every statement, or its "
+     "records are transferred to an empty repository; then each task of the subtree is edited and the shallow run must equal the "
+     "empty-backend result; the subtree-task state invariant is checked on every database produced.",
+     "note": _CRASH_NOTE},
 ]
 
 _ALL = [f"C{i:02d}" for i in range(1, 39)]
